@@ -137,6 +137,7 @@ type Exec struct {
 	counts  []string
 	asts    []*parser.ASTNode
 	// file layer (Input.Opts != nil): per fraction its list entry, base path, active and sealed objects
+	noWait  bool // StepFetchDuringRelease: start the fetch, do not wait for it
 	entries []frac.Fraction
 	bases   []string
 	actives []*frac.Active
@@ -358,6 +359,9 @@ func (e *Exec) step0(l Label) Obs {
 			docs, err := fracmanager.NewFetcher(1).FetchDocs(context.Background(), fracmanager.List{f}, src)
 			e.ev <- event{done: true, res: docs, err: err}
 		}()
+		if e.noWait {
+			return Obs{}
+		}
 		return e.readerWait(r)
 	case "R":
 		r := e.rs[l.T]
@@ -610,6 +614,57 @@ func (e *Exec) Idle() bool {
 		}
 	}
 	return true
+}
+
+// StepFetchDuringRelease runs the fetch l (an idle reader, a list entry of fraction g that is served by the SEALED
+// provider) and the release step of fraction g's seal thread (parked at seal.swapped, no reader lock held: the step is
+// Active.Release) TRULY concurrently: the fetch goroutine is started, then the seal thread is resumed, then both are
+// awaited. In the code as it is both orders give the same two observations - those of the labels [FB; M g] executed
+// one after the other, which is what the model computes (C07_release_closes_only_unshared: the release touches nothing
+// the sealed provider reads). Falls back to the two sequential steps when the situation is not the one described.
+func (e *Exec) StepFetchDuringRelease(l Label, g int) (Obs, Obs) {
+	m := Label{K: "M", T: g}
+	s := e.seals[g]
+	ok := l.K == "FB" && e.Enabled(l) && s != nil && s.state == 1 && s.at == "seal.swapped" && e.rl[g] == 0 &&
+		e.rs[l.T].snapG[l.J] == g
+	if !ok {
+		oa := e.Step(l)
+		return oa, e.Step(m)
+	}
+	var before []int
+	if e.in.Opts != nil {
+		before = e.fileObs()
+	}
+	r := e.rs[l.T]
+	e.noWait = true
+	e.step0(l)
+	e.noWait = false
+	close(s.park)
+	var of, om Obs
+	gotF, gotM := false, false
+	for !gotF || !gotM {
+		x, got := e.wait()
+		switch {
+		case !got:
+			return Obs{K: "err", Msg: "hang in fetch overlapping release"}, Obs{K: "err", Msg: "hang in fetch overlapping release"}
+		case x.done && !gotF:
+			of, gotF = e.readerObs(r, x), true
+		case !x.done && !gotM && (x.hook == "seal.released"):
+			s.at, s.park = x.hook, x.park
+			om, gotM = hookObs(x.hook), true
+		default: // the fetch reached a schedule point of an active provider, or the seal finished: not attributable
+			if !x.done {
+				close(x.park)
+			}
+			return Obs{K: "err", Msg: "fetch overlapping release: unexpected event " + x.hook}, Obs{K: "err", Msg: "unexpected"}
+		}
+	}
+	e.counts = append(e.counts, "gadget:fetch-overlaps-release")
+	if e.in.Opts != nil && !e.hang {
+		of.Files = before // a fetch does not touch files: the state the model has after [FB]
+		om.Files = e.fileObs()
+	}
+	return of, om
 }
 
 // ---------------------------------------------------------------- file / descriptor layer
